@@ -203,6 +203,11 @@ MIRSYM("make_tree_step", ["C01", "C15", "C20", "C04"],
        "1 <= |S| <= 2 (thorough 3) over a 16-id universe, split_after 1..=3, all side decisions symbolic, used node ids {0,2}; fair-RNG assumption for the random fallback (both sides non-empty)",
        _lazy("e2_tree", "make_tree_obligation"), site="Writer::make_tree_in_file")
 
+MIRSYM("make_tree_skewed_step", ["C04"],
+       "make_tree_in_file with split_imbalance replaced by its contract (any f64 in [0.5, 1], > 0.99 when a side is empty), i.e. with the retry loop and the no-usable-hyperplane fallback free to take every branch combination a node of hundreds of items can take: the subtree still reaches exactly S, and below every stored non-zero normal each item is on the side D::side answered against that very normal (the stored plane is the plane that partitioned, or it is the zero dummy plane)",
+       "|S| = 2 (thorough: + |S| = 3 under a 50 min cap) over a 16-id universe, split_after 1..=3, all side decisions and all <= 4 imbalance values per node symbolic; fair-RNG assumption for the random fallback; counterexamples are replayed natively on skewed data sets (120-on-a-ray + 1 outlier; 194 collinear + 6 outliers)",
+       _lazy("e2_tree", "make_tree_abstract_obligation"), site="Writer::make_tree_in_file")
+
 MIRSYM("node_ids_interleavings", ["C13"],
        "from every state ConcurrentNodeIds::new can produce, under every sequentially consistent interleaving of the atomic steps of k threads x m calls of next(): every returned Ok(id) is not in use and pairwise distinct",
        "used sets over a 16-id universe (incl. the moment recycled ids run out); (k,m) in {2x1, 2x2} quick, + {3x1, 2x3} thorough; atomic step = one atomic access of the MIR",
@@ -438,10 +443,10 @@ P("C04", "A stored vector is routed to itself by every tree (self-lookup works)"
   "bounded model checking (Kani/CBMC) of side/margin/pq_distance for all 7 metrics, plus MIR symbolic execution of the routing steps",
   "Bounded model checking of the routing lemma per metric (comparisons/min/negation decided bit-precisely; dot_product as a symmetric uninterpreted function for the f32 metrics, the real xor-popcount kernel for the quantised ones); the tree steps' structure is covered by the C01 obligations.",
   stubs_and_models=STD_STUBS + ["stub spaces::simple::dot_product -> symmetric uninterpreted function (trusted axiom: IEEE multiplication commutes)", "symbolic RNG"],
-  functions_encoded=["Distance::side", "Distance::pq_distance", "Distance::margin_no_header (x7)", "dot_product_binary_quantized", "Writer::insert_items_in_file", "Writer::delete_items_in_file"],
-  bounds={"dimension": "2 (f32) / 64 bits (quantised)"},
-  outside_claim=["the end-to-end search_k = 1 observation (needs a build)", "numerical meaning of margin"],
-  assumptions=["dot(u,v) = dot(v,u)"])
+  functions_encoded=["Distance::side", "Distance::pq_distance", "Distance::margin_no_header (x7)", "dot_product_binary_quantized", "Writer::insert_items_in_file", "Writer::delete_items_in_file", "Writer::make_tree_in_file (concrete and contract-abstracted split_imbalance)"],
+  bounds={"dimension": "2 (f32) / 64 bits (quantised)", "make_tree_skewed_step": "|S| = 2, <= 4 symbolic imbalance values per node"},
+  outside_claim=["the end-to-end search_k = 1 observation (needs a build)", "numerical meaning of margin", "|S| >= 3 under the imbalance abstraction"],
+  assumptions=["dot(u,v) = dot(v,u)", "split_imbalance contract (trusted): result in [0.5, 1], not NaN, > 0.99 when one side is empty"])
 P("C02", "Unlimited-budget search returns the exact nearest neighbours",
   "symbolic execution of the rustc MIR of Reader::nns_by_leaf (whole function) with z3 over a bounded forest family, symbolic distances as an uninterpreted function",
   "Bounded symbolic execution: every path of nns_by_leaf over every forest of the family and every distance/margin/filter/count valuation is enumerated; the exactness oracle is decided by z3 on each.",
